@@ -99,7 +99,15 @@ func identOf(mm *gostatsd.MetricMap) map[implKey]model.Key {
 func splitIndex(t vt.TB, mm *gostatsd.MetricMap, n int) map[model.Key]int {
 	before := flatten(mm)
 	idents := identOf(mm)
-	parts := mm.Split(n)
+	var parts []*gostatsd.MetricMap
+	func() {
+		defer func() {
+			if p := recover(); p != nil {
+				vt.Fail(t, "C06:split-panic", "Split(%d) panicked: %v (map %s)", n, p, gen.DescribeMap(mm))
+			}
+		}()
+		parts = mm.Split(n)
+	}()
 	if len(parts) != n {
 		vt.Fail(t, "C06:part-count", "Split(%d) returned %d parts", n, len(parts))
 	}
